@@ -260,7 +260,7 @@ impl UnverifiedBiscuit {
             )
             .map_err(error::Token::Format)?
         } else {
-            if index > self.blocks.len() + 1 {
+            if index > self.blocks.len() {
                 return Err(error::Token::Format(
                     error::Format::BlockDeserializationError("invalid block index".to_string()),
                 ));
